@@ -260,6 +260,10 @@ class Evaluator:
             elif op == 'ret':
                 out.append((path, self._val(regs, i.ops[0]) if i.ops else None))
                 return
+            elif op == 'load' and self._const_load(i) is not None:
+                regs[i.id] = Aff({}, self._const_load(i))          # a field of a constant global (e.g. nsync_time_no_deadline)
+            elif op == 'getelementptr' and isinstance(i.ops[0], dict):
+                regs[i.id] = None          # address of a constant global; only used by a constant load
             elif op in ('alloca', 'store', 'load', 'getelementptr'):
                 raise AnalysisBroken('affine: memory access at %s (run sroa first / not straight-line arithmetic)' % i.where())
             elif op in ('and', 'or', 'xor') and i.ty == 'i1':
@@ -267,6 +271,36 @@ class Evaluator:
                 regs[i.id] = ('bool', op, a, b)
             else:
                 raise AnalysisBroken('affine: unsupported instruction %s at %s' % (op, i.where()))
+    def _const_load(self, i):
+        """integer value loaded from a constant global by a constant address expression, or None"""
+        ref = i.ops[0]
+        off = 0
+        while isinstance(ref, dict) and ref.get('k') == 'cexpr' and ref.get('op') in ('bitcast', 'getelementptr'):
+            if ref['op'] == 'getelementptr':
+                if ref.get('coff') is None:
+                    return None
+                off += ref['coff']
+            ref = ref['ops'][0]
+        if not (isinstance(ref, dict) and ref.get('k') == 'global'):
+            return None
+        g = self.mod.globals.get(ref['n'])
+        if not g or not g.get('const') or 'init' not in g:
+            return None
+        init = g['init']
+        w = int(i.ty[1:]) // 8 if i.ty.startswith('i') and i.ty[1:].isdigit() else None
+        if w is None:
+            return None
+        if init.get('k') == 'zero':
+            return 0
+        if init.get('k') == 'agg':
+            pos = 0
+            for e in init['elts']:
+                ew = (e.get('w', 64) // 8) if e.get('k') == 'int' else 8
+                if pos == off and e.get('k') == 'int' and ew == w:
+                    v = e['v']
+                    return v - (1 << (8 * w)) if v >> (8 * w - 1) else v
+                pos += ew
+        return None
     def _continue(self, fn, regs, path, blk, idx, out, depth):
         """resume a block after instruction idx-1 (used after an inlined call / select)"""
         self._run(fn, regs, path, blk.id, None, out, depth, start=idx)
